@@ -211,4 +211,117 @@ class Random(Component):
                           % (what, case["op"], case["threshold"], case["fn"], got[:6], rows[:6]))
 
 
-COMPONENTS = [Random()]
+@st.composite
+def large_matcher_case(draw, tier):
+    from .c02 import large_case
+    case = draw(large_case(tier))
+    case["cand_rows"] = draw(st.integers(50, 3000 if tier == "thorough" else 900))
+    case["index_kind"] = draw(st.sampled_from(["range", "gaps", "dup", "str"]))
+    case["use_tok"] = draw(st.integers(0, 3)) > 0
+    case["fn"] = draw(st.sampled_from(simfns.TOKEN_FNS if case["use_tok"] else
+                                      ["lev", "common_count", "lambda", "partial"]))
+    case["op6"] = draw(st.sampled_from(OPS6))
+    case["bag"] = draw(st.booleans())
+    case["score"] = draw(st.booleans())
+    case["pick"] = draw(st.integers(0, 10 ** 6))
+    return case
+
+
+class LargeMatcher(Component):
+    """apply_matcher on candidate sets of 50-3000 rows over the larger synthetic tables (both
+    cache regimes, n_jobs up to 24, non-default candset index) against the row-wise model."""
+    name = "large"
+    kind = "hyp"
+    rule = ">=1 row kept and >=1 row dropped"
+
+    def examples(self, tier):
+        return 10 if tier == "quick" else 60
+
+    def strategy(self, tier):
+        return large_matcher_case(tier)
+
+    def check(self, case, ctx):
+        import random
+
+        import pandas as pd
+        from .c02 import large_tables
+        L, R, lv, rv = large_tables(case["seed"], case["nl"], case["nr"], case["vocab"],
+                                    case["maxtok"])
+        rnd = random.Random(case["seed"] + 2)
+        n = case["cand_rows"]
+        li = [rnd.randrange(case["nl"]) for _ in range(n)]
+        ri = [rnd.randrange(case["nr"]) for _ in range(n)]
+        lk, rk = L["key"].tolist(), R["key"].tolist()
+        ids = [7 * i + 3 for i in range(n)]
+        C = pd.DataFrame({"_id": ids, "lk": [lk[i] for i in li],
+                          "rk": pd.Series([rk[j] for j in ri], dtype=object)})
+        C.index = pd.Index({"range": list(range(n)), "gaps": [3 * i + 1 for i in range(n)],
+                            "dup": [i // 3 for i in range(n)],
+                            "str": ["c%d" % i for i in range(n)]}[case["index_kind"]])
+        tokcfg = {"kind": "ws", "return_set": not case["bag"]}
+        tok = mk_tok(tokcfg) if case["use_tok"] else None
+        mtok = mk_tok(tokcfg) if case["use_tok"] else None
+        fn = simfns.get(case["fn"])
+
+        def score(i, j):
+            a, b = lv[i], rv[j]
+            if a is None or b is None:
+                return None
+            if mtok is not None:
+                return fn(mtok.tokenize(a), mtok.tokenize(b))
+            return fn(a, b)
+
+        thr = None
+        for probe in range(20):
+            k = (case["pick"] + probe) % n
+            sc = score(li[k], ri[k])
+            if sc is not None:
+                thr = sc
+                break
+        if thr is None:
+            thr = 0.5
+        op = oracle.OPS[case["op6"]]
+        am, nj = case["allow_missing"], case["n_jobs"]
+        la = ["extra"] if case["attrs"] else None
+        before = canon.snapshot(C)
+        with calls.backend(nj):
+            out = ctx.lib(ssj.apply_matcher, C, "lk", "rk", L, R, "key", "key", "val", "val", tok,
+                          fn, thr, case["op6"], am, la, None, "l_", "r_", case["score"], nj,
+                          False)
+        if out is None:
+            return
+        extra = L["extra"].tolist()
+        exp = []
+        memo = {}
+        for cid, i, j in zip(ids, li, ri):
+            if (i, j) not in memo:
+                memo[(i, j)] = score(i, j)
+            sc = memo[(i, j)]
+            if sc is None:
+                if not am:
+                    continue
+                sc = float("nan")
+            elif not op(sc, thr):
+                continue
+            row = [cid, lk[i], rk[j]] + ([extra[i]] if la else []) + \
+                ([sc] if case["score"] else [])
+            exp.append(tuple(canon.cv(v) for v in row))
+        got = canon.rows_of(out) if len(out) else []
+        who = "apply_matcher(%s, op %s, threshold %r, n_jobs=%r) on %d candidate rows (seed %d)" \
+            % (case["fn"], case["op6"], thr, nj, n, case["seed"])
+        if got != exp:
+            gs, es = set(got), set(exp)
+            ctx.violation("fn=apply_matcher,kind=wrong-rows",
+                          "%s: %d rows returned, %d expected; only returned %r, only expected %r"
+                          % (who, len(got), len(exp), sorted(gs - es, key=repr)[:3],
+                             sorted(es - gs, key=repr)[:3]))
+        if canon.snapshot(C) != before:
+            ctx.violation("fn=apply_matcher,kind=input-modified",
+                          "%s modified its candidate set" % who)
+        ctx.nontrivial(0 < len(exp) < n)
+        ctx.label("large:cached" if (tok is not None and len(L) + len(R) < 2 * n)
+                  else "large:uncached")
+        ctx.label("large:fn=" + case["fn"])
+
+
+COMPONENTS = [Random(), LargeMatcher()]
